@@ -28,6 +28,19 @@ def uses(method):
     return set(USES[method])
 
 
+GO_SPACE = set("\t\n\v\f\r \x85\xa0\u1680\u2028\u2029\u202f\u205f\u3000") | {chr(c) for c in range(0x2000, 0x200b)}
+
+
+def go_trim(s):
+    """strings.TrimSpace (unicode.IsSpace), not Python's wider str.strip"""
+    i, j = 0, len(s)
+    while i < j and s[i] in GO_SPACE:
+        i += 1
+    while j > i and s[j - 1] in GO_SPACE:
+        j -= 1
+    return s[i:j]
+
+
 def hist(it):
     h = {}
     for x in it:
